@@ -112,6 +112,100 @@ theorem C01_lazy_overlapped_request_served (j : Nat) (hj : j ≤ 2) :
   have : j = 0 ∨ j = 1 ∨ j = 2 := by omega
   rcases this with rfl | rfl | rfl <;> decide
 
+theorem rep_split (n t : Nat) : List.replicate (n + 2) t = List.replicate n t ++ [t, t] := by
+  induction n with
+  | zero => rfl
+  | succ k ih =>
+    rw [show k + 1 + 2 = (k + 2) + 1 from rfl, List.replicate_succ, ih, List.replicate_succ]
+    rfl
+
+theorem get_set_self {α : Type} (l : List α) (t : Nat) (a x : α) (h : l[t]? = some a) : (l.set t x)[t]? = some x := by
+  have hlt : t < l.length := by
+    rcases Nat.lt_or_ge t l.length with h' | h'
+    · exact h'
+    · rw [List.getElem?_eq_none h'] at h; cases h
+  simp [hlt]
+
+/-- a thread in `build j` that runs alone reaches `build n` after `n - j` steps (nobody's chain changes) -/
+theorem solo_build (n t : Nat) : ∀ (d : Nat) (s : State) (j : Nat), j + d = n → s.pcs[t]? = some (.build j) →
+    (runLocal n s (List.replicate d t)).pcs[t]? = some (.build n) ∧
+    (runLocal n s (List.replicate d t)).head = s.head := by
+  intro d
+  induction d with
+  | zero =>
+    intro s j hj h
+    have : j = n := by omega
+    subst this
+    exact ⟨h, rfl⟩
+  | succ d ih =>
+    intro s j hj h
+    have hlt : j < n := by omega
+    have hstep : stepLocal n s t = { s with pcs := s.pcs.set t (.build (j + 1)) } := by
+      unfold stepLocal
+      simp [h, hlt]
+    simp only [List.replicate_succ, runLocal]
+    rw [hstep]
+    have := ih { s with pcs := s.pcs.set t (.build (j + 1)) } (j + 1) (by omega) (get_set_self _ _ _ _ h)
+    exact this
+
+/-- **progress**: a thread that has not started, given `n + 3` turns of its own - whatever state the others have
+    left behind (any state satisfying the invariant: somebody may have published the complete chain, others may
+    be in the middle of their own assembly) - has called the complete chain. -/
+theorem C01_lazy_solo_progress (n t : Nat) (s : State) (hinv : Inv n s) (h : s.pcs[t]? = some .start) :
+    (runLocal n s (List.replicate (n + 3) t)).pcs[t]? = some (.called n) := by
+  cases hhead : s.head with
+  | some k =>
+    have hk : k = n := hinv.1 k hhead
+    subst hk
+    have h1 : stepLocal k s t = { s with pcs := s.pcs.set t (.ready k) } := by
+      unfold stepLocal; simp [h, hhead]
+    have h2 : stepLocal k { s with pcs := s.pcs.set t (.ready k) } t =
+        { s with pcs := (s.pcs.set t (.ready k)).set t (.called k) } := by
+      unfold stepLocal; simp [get_set_self _ _ _ _ h]
+    -- after two steps the thread is in `called k`; further steps are the identity on it
+    have hstay : ∀ (m : Nat) (s' : State), s'.pcs[t]? = some (.called k) →
+        (runLocal k s' (List.replicate m t)).pcs[t]? = some (.called k) := by
+      intro m
+      induction m with
+      | zero => intro s' h'; exact h'
+      | succ m ih =>
+        intro s' h'
+        simp only [List.replicate_succ, runLocal]
+        have : stepLocal k s' t = s' := by unfold stepLocal; simp [h']
+        rw [this]; exact ih s' h'
+    have : List.replicate (k + 3) t = t :: t :: List.replicate (k + 1) t := by
+      simp [List.replicate_succ]
+    rw [this]
+    simp only [runLocal]
+    rw [h1, h2]
+    exact hstay _ _ (get_set_self _ _ _ _ (get_set_self _ _ _ _ h))
+  | none =>
+    have h1 : stepLocal n s t = { s with pcs := s.pcs.set t (.build 0) } := by
+      unfold stepLocal; simp [h, hhead]
+    have hb := solo_build n t n { s with pcs := s.pcs.set t (.build 0) } 0 (by omega) (get_set_self _ _ _ _ h)
+    have : List.replicate (n + 3) t = t :: (List.replicate n t ++ [t, t]) := by
+      rw [show n + 3 = (n + 2) + 1 from rfl, List.replicate_succ, rep_split]
+    rw [this]
+    simp only [runLocal]
+    rw [h1]
+    have hrun : ∀ (l1 l2 : List Nat) (s' : State), runLocal n s' (l1 ++ l2) = runLocal n (runLocal n s' l1) l2 := by
+      intro l1
+      induction l1 with
+      | nil => intro l2 s'; rfl
+      | cons a l ih => intro l2 s'; simp only [List.cons_append, runLocal]; exact ih l2 _
+    rw [hrun]
+    generalize hs' : runLocal n { s with pcs := s.pcs.set t (.build 0) } (List.replicate n t) = s' at hb
+    obtain ⟨hpc, _⟩ := hb
+    have h3 : stepLocal n s' t = { head := some n, pcs := s'.pcs.set t (.ready n) } := by
+      unfold stepLocal; simp [hpc]
+    simp only [runLocal]
+    rw [h3]
+    have h4 : stepLocal n { head := some n, pcs := s'.pcs.set t (.ready n) } t =
+        { head := some n, pcs := (s'.pcs.set t (.ready n)).set t (.called n) } := by
+      unfold stepLocal; simp [get_set_self _ _ _ _ hpc]
+    rw [h4]
+    exact get_set_self _ _ _ _ (get_set_self _ _ _ _ hpc)
+
 /-- The in-place variant publishes the growing chain: a second thread that arrives after the first layer calls
     a ONE-layer chain (no InternalRedirector / ExceptionTrapper around the tail) - the statement above is false
     for it.  Witness: 3 layers, thread 0 takes two steps, thread 1 reads `self.head` and calls it. -/
